@@ -31,6 +31,9 @@ EXPLANATION = ('ORD over the seven extractors; API schema attributes on quantize
 TRUSTED = ['C12 single-writer rule', 'C09 velocity bins']
 NOT_DECIDED = ['multiset / step-for-step equality of extracted and original music over all inputs', 'the wrapped store piano_roll[offset - 1] for offset 0 (unobservable under the precondition after the start-order repair)']
 ASSUMPTIONS = ['no two notes of one pitch overlap or coincide (the property\'s precondition)']
+# rules whose verdict does not depend on how the statements are arranged (semantic analyses); all other rules are shape rules:
+# when one of those fails in a function that was restructured relative to reference/signatures.json the verdict is "cannot decide"
+ROBUST = ('ORD/traversal', 'API')
 FLOORS = {'ORD': 10, 'API': 40, 'ESC': 8, 'SHIFT': 9, 'VEL': 2, 'KEYS': 4, 'MEL': 5, 'DRUM': 4, 'CHORD': 4}
 
 EXTRACTORS = [
